@@ -29,6 +29,50 @@ pub enum TrySendError<T> {
     Full(T),
     Disconnected(T),
 }
+#[derive(PartialEq, Eq, Clone, Copy)]
+pub enum SendTimeoutError<T> {
+    Timeout(T),
+    Disconnected(T),
+}
+impl<T> std::fmt::Debug for SendTimeoutError<T> {
+    fn fmt(&self, f: &mut std::fmt::Formatter<'_>) -> std::fmt::Result {
+        "SendTimeoutError(..)".fmt(f)
+    }
+}
+impl<T> std::fmt::Display for SendTimeoutError<T> {
+    fn fmt(&self, f: &mut std::fmt::Formatter<'_>) -> std::fmt::Result {
+        match self {
+            SendTimeoutError::Timeout(..) => "timed out waiting on send operation".fmt(f),
+            SendTimeoutError::Disconnected(..) => "sending on a disconnected channel".fmt(f),
+        }
+    }
+}
+impl<T> std::error::Error for SendTimeoutError<T> {}
+impl<T> SendTimeoutError<T> {
+    pub fn into_inner(self) -> T {
+        match self {
+            SendTimeoutError::Timeout(t) | SendTimeoutError::Disconnected(t) => t,
+        }
+    }
+    pub fn is_timeout(&self) -> bool {
+        matches!(self, SendTimeoutError::Timeout(_))
+    }
+}
+#[derive(PartialEq, Eq, Clone, Copy, Debug)]
+pub enum RecvTimeoutError {
+    Timeout,
+    Disconnected,
+}
+impl std::fmt::Display for RecvTimeoutError {
+    fn fmt(&self, f: &mut std::fmt::Formatter<'_>) -> std::fmt::Result {
+        match self {
+            RecvTimeoutError::Timeout => "timed out waiting on receive operation".fmt(f),
+            RecvTimeoutError::Disconnected => "channel is empty and disconnected".fmt(f),
+        }
+    }
+}
+impl std::error::Error for RecvTimeoutError {}
+
 #[derive(PartialEq, Eq, Clone, Copy, Debug)]
 pub struct RecvError;
 #[derive(PartialEq, Eq, Clone, Copy, Debug)]
@@ -149,6 +193,24 @@ impl<T> Sender<T> {
         self.inner.push(t);
         Ok(())
     }
+    /// Timed send: the timeout is logical — it expires only when no task in the execution can run
+    /// (logged as `ChanTimeout`), so it never fires "early".
+    pub fn send_timeout(&self, t: T, _d: std::time::Duration) -> Result<(), SendTimeoutError<T>> {
+        let (len, cap, _, rx) = self.inner.meta();
+        if len >= cap && rx > 0 {
+            core::log(Ev::SendWouldBlock { ch: self.inner.id });
+        }
+        let timed_out = core::sched_point(Wait::SendT(self.inner.id));
+        let (len, cap, _, rx) = self.inner.meta();
+        if rx == 0 {
+            return Err(SendTimeoutError::Disconnected(t));
+        }
+        if timed_out && len >= cap {
+            return Err(SendTimeoutError::Timeout(t));
+        }
+        self.inner.push(t);
+        Ok(())
+    }
     pub fn try_send(&self, t: T) -> Result<(), TrySendError<T>> {
         core::sched_point(Wait::None);
         let (len, cap, _, rx) = self.inner.meta();
@@ -188,6 +250,19 @@ impl<T> Receiver<T> {
         match self.inner.pop() {
             Some(v) => Ok(v),
             None => Err(RecvError),
+        }
+    }
+    pub fn recv_timeout(&self, _d: std::time::Duration) -> Result<T, RecvTimeoutError> {
+        let timed_out = core::sched_point(Wait::RecvT(self.inner.id));
+        match self.inner.pop() {
+            Some(v) => Ok(v),
+            None => {
+                if timed_out && self.inner.meta().2 > 0 {
+                    Err(RecvTimeoutError::Timeout)
+                } else {
+                    Err(RecvTimeoutError::Disconnected)
+                }
+            }
         }
     }
     pub fn try_recv(&self) -> Result<T, TryRecvError> {
